@@ -5,11 +5,12 @@
    lines except that some continuation lines " ." (any trailing blanks) of the first are blank
    lines in the second.  Proved: both parse, into the same paragraphs and fields with the same
    names and line numbers, the texts differing only at the replaced lines (" ." against the
-   empty text), hence with the same words in each field; the paragraphs get the same type; for
-   paragraphs without repeated field names the typed fields and the extra data have the same
-   keys and the same words.  (partial: paragraphs WITH repeated names and the recovery rewrites of
-   the copyright object are decided by co-execution only; the recorded line ranges may differ,
-   which the property does not exclude.) *)
+   empty text), hence with the same words in each field; the copyright objects have the same
+   number of paragraphs, of the same types, with typed fields and extra data of the same keys and
+   the same words - for documents whose paragraphs classify as header, files or license and have
+   no repeated field name, i.e. the well-formed documents the property quantifies over.  (Documents
+   with repeated names or recovery rewrites are outside the quantifier and decided by co-execution
+   only; the recorded line ranges may differ, which the property does not exclude.) *)
 From Coq Require Import String.
 From Coq Require Import NArith List Bool.
 From DI Require Import Result PyStr Codec Deb822 Deb822Facts BlankFacts Debcon Copyright Grammar822 Grammar822Facts
@@ -50,6 +51,13 @@ Theorem C12_markers_replaced_paragraph : forall t g g' p p', Forall2 Rfield g g'
 Proof. exact markers_replaced_paragraph. Qed.
 Print Assumptions C12_markers_replaced_paragraph.
 
+
+(* the whole copyright objects: same number of paragraphs, same types, same keys, same words *)
+Theorem C12_markers_replaced_object : forall ps ps', wf_doc_b ps -> wf_doc_b ps' -> Rdoc ps ps' ->
+  Forall (fun g => classify g <> PCatchAll /\ NoDup (map fname (live g))) (expected_doc_b 1 ps) ->
+  exists paras paras', from_text (doc_text ps) = Ok paras /\ from_text (doc_text ps') = Ok paras' /\ Forall2 Rpara paras paras'.
+Proof. exact markers_replaced_object. Qed.
+Print Assumptions C12_markers_replaced_object.
 
 (* a continuation line is neither blank nor a declaration *)
 Theorem C12_continuation_is_content : forall v, is_cont v = true -> is_blank v = false /\ is_decl v = false.
